@@ -59,12 +59,16 @@ class Res:
 
 
 class Leg:
-    def __init__(self, name, strategy, run, n_quick, n_thorough, max_shrink_buckets=4):
+    def __init__(self, name, strategy, run, n_quick, n_thorough, max_shrink_buckets=4, cases=None):
         self.name = name
         self.strategy = strategy
         self.run = run
         self.n = {'quick': n_quick, 'thorough': n_thorough}
         self.max_shrink_buckets = max_shrink_buckets
+        # enumerated leg: `cases` (a list, or a callable returning one) is run completely, sharded over the
+        # workers, without Hypothesis (finite sub-spaces that are enumerated exhaustively)
+        self.cases = cases
+        self.essential = {}
 
 
 def libcall(fn, *a, **kw):
@@ -197,7 +201,7 @@ def _hyp_settings(n, shrink):
                     suppress_health_check=list(HealthCheck))
 
 
-def _collect_leg(leg, n, seed, known, inflight, out):
+def _collect_leg(leg, n, seed, known, inflight, out, shard=(0, 1)):
     from hypothesis import given, seed as hseed
     st_out = out.setdefault(leg.name, {'evaluations': 0, 'nt_hashes': set(), 'classes': {}, 'counters': {},
                                        'excluded': {}, 'skipped': {}, 'new': {}, 'samples': [],
@@ -228,18 +232,29 @@ def _collect_leg(leg, n, seed, known, inflight, out):
                 newb.append((bucket, msg))
         return newb
 
-    @hseed(seed)
-    @_hyp_settings(n, shrink=False)
-    @given(leg.strategy)
-    def collect(case):
-        inflight.set(leg.name, case)
-        res = leg.run(case)
+    def note_new(case, res):
         for bucket, msg in record(case, res):
             ent = st_out['new'].setdefault(bucket, {'count': 0, 'case': case, 'msg': msg})
             ent['count'] += 1
             if len(canon(case)) < len(canon(ent['case'])):
                 ent['case'] = case
                 ent['msg'] = msg
+
+    if leg.cases is not None:
+        widx, nworkers = shard
+        allc = leg.cases() if callable(leg.cases) else leg.cases
+        for case in allc[widx::nworkers]:
+            inflight.set(leg.name, case)
+            note_new(case, leg.run(case))
+        st_out['enumerated'] = len(allc)
+        return
+
+    @hseed(seed)
+    @_hyp_settings(n, shrink=False)
+    @given(leg.strategy)
+    def collect(case):
+        inflight.set(leg.name, case)
+        note_new(case, leg.run(case))
 
     collect()
 
@@ -284,9 +299,9 @@ def _worker_main(modname, tier, widx, nworkers, seed, stale, rundir, stage_dir):
         for leg in mod.legs(tier):
             n = leg.n[tier]
             per = max(1, -(-n // nworkers))
-            if n < nworkers and widx >= n:
+            if leg.cases is None and n < nworkers and widx >= n:
                 continue
-            _collect_leg(leg, per, seed * 1000 + widx, known, inflight, out)
+            _collect_leg(leg, per, seed * 1000 + widx, known, inflight, out, (widx, nworkers))
         with open(os.path.join(rundir, 'w%d.result' % widx), 'wb') as f:
             pickle.dump({'ok': True, 'out': out}, f)
     except BaseException as e:  # harness error inside the worker
@@ -486,6 +501,8 @@ def main(mod, tier, replay=None):
                                               'excluded': {}, 'skipped': {}, 'new': {}, 'samples': [],
                                               'excluded_samples': {}})
                 m['evaluations'] += o['evaluations']
+                if 'enumerated' in o:
+                    m['enumerated'] = o['enumerated']
                 m['nt_hashes'] |= o['nt_hashes']
                 for key in ('classes', 'counters', 'excluded', 'skipped'):
                     for k, v in o[key].items():
@@ -539,6 +556,7 @@ def main(mod, tier, replay=None):
                 'samples': samples[:12],
                 'legs': {l: {'evaluations': m['evaluations'], 'distinct_nontrivial': len(m['nt_hashes']),
                              'counters': m['counters']} for l, m in merged.items()},
+                'exhaustive_subspaces': {l: m['enumerated'] for l, m in merged.items() if 'enumerated' in m},
                 'classes': classes,
                 'class_shortfalls': shortfalls,
                 'excluded_known': {l: m['excluded'] for l, m in merged.items() if m['excluded']},
